@@ -12,7 +12,9 @@ import (
 	"github.com/AliceO2Group/Control/core/task"
 	"github.com/AliceO2Group/Control/core/task/sm"
 	"github.com/AliceO2Group/Control/core/workflow"
+	occpb "github.com/AliceO2Group/Control/executor/protos"
 	vrt "github.com/AliceO2Group/Control/zz_vrt"
+	mesos "github.com/mesos/mesos-go/api/v1/lib"
 )
 
 // A live environment (CONFIGURED or RUNNING) with two task roles, watched by the real state-watcher goroutine.
@@ -24,7 +26,7 @@ import (
 //   - non-critical victim: the environment's state does not change.
 //verif:entry HarnessCriticalTaskFailure unwind=96 preempt=1 lazyarrive=1 timers=lazy reach=error,unchanged stub=github.com/AliceO2Group/Control/common/utils.TimeTrack nosched=github.com/AliceO2Group/Control/core/the.mu steps=8000000
 func HarnessCriticalTaskFailure() {
-	c03Failure(false)
+	c03Failure(0)
 }
 
 // The same failure of a critical task at the very moment the watcher starts (right after deployment and
@@ -32,10 +34,19 @@ func HarnessCriticalTaskFailure() {
 // failure, the environment ends in ERROR.
 //verif:entry HarnessFailureAtWatcherStart unwind=96 preempt=2 lazyarrive=1 timers=lazy reach=error stub=github.com/AliceO2Group/Control/common/utils.TimeTrack nosched=github.com/AliceO2Group/Control/core/the.mu steps=8000000
 func HarnessFailureAtWatcherStart() {
-	c03Failure(true)
+	c03Failure(1)
 }
 
-func c03Failure(atStart bool) {
+// The failure is announced by the task itself: the executor forwards a TASK_INTERNAL_ERROR device event, which the
+// environment manager handles (handleDeviceEvent). Critical victim: the environment ends in ERROR; non-critical
+// victim: its state does not change.
+//verif:entry HarnessTaskAnnouncesInternalError unwind=96 preempt=1 timers=lazy reach=error,unchanged stub=github.com/AliceO2Group/Control/common/utils.TimeTrack nosched=github.com/AliceO2Group/Control/core/the.mu steps=8000000
+func HarnessTaskAnnouncesInternalError() {
+	c03Failure(2)
+}
+
+func c03Failure(mode int) {
+	atStart, deviceEvent := mode == 1, mode == 2
 	running := vrt.Bool("running")
 	state := "CONFIGURED"
 	taskState := sm.CONFIGURED
@@ -43,7 +54,9 @@ func c03Failure(atStart bool) {
 		state, taskState = "RUNNING", sm.RUNNING
 	}
 	victimCritical, noiseFirst, goErrorHookFails, flap := true, false, false, false
-	if !atStart {
+	if deviceEvent {
+		victimCritical = vrt.Bool("victim.critical")
+	} else if !atStart {
 		victimCritical = vrt.Bool("victim.critical")
 		noiseFirst = vrt.Bool("noise.first") // another critical task changes state just before the victim fails
 		goErrorHookFails = vrt.Bool("goerror.hook.fails")
@@ -93,7 +106,13 @@ func c03Failure(atStart bool) {
 	if noiseFirst {
 		go other.(workflow.PublicUpdatable).UpdateState(sm.STANDBY) // root goes MIXED
 	}
-	victim.(workflow.PublicUpdatable).UpdateState(sm.ERROR)
+	if deviceEvent {
+		t := world.Tasks[0]
+		origin := event.DeviceEventOrigin{TaskId: mesos.TaskID{Value: t.GetTaskId()}, AgentId: mesos.AgentID{Value: t.GetAgentId()}, ExecutorId: mesos.ExecutorID{Value: t.GetExecutorId()}}
+		envs.handleDeviceEvent(event.NewDeviceEvent(origin, occpb.DeviceEventType_TASK_INTERNAL_ERROR))
+	} else {
+		victim.(workflow.PublicUpdatable).UpdateState(sm.ERROR)
+	}
 	if flap {
 		victim.(workflow.PublicUpdatable).UpdateState(sm.STANDBY)
 	}
